@@ -173,10 +173,38 @@ func genC03(repo string, args []string) (string, error) {
 		return true
 	})
 	add("loadCommentRule: rule line is the alternative's line", lcs[normText("resultBase := resultProto")] == 1 && lcs[normText("resultBase.line = line")] == 1 && commentBase)
-	add("loadRule: each syntax alternative is loaded with its own line",
-		lrs[normText("if err := l.loadSyntaxRule(group, proto, info, rule, pat.Value, pat.Line); err != nil {return err}")] == 1)
-	add("loadRule: each comment alternative is loaded with its own line",
-		lrs[normText("if err := l.loadCommentRule(proto, rule, pat.Value, pat.Line); err != nil {return err}")] == 1)
+	// loadRule: `for _, pat := range rule.XPatterns { ... l.loadXRule(..., pat.Value, pat.Line) ... }` -- the callee's last
+	// parameter is the line (checked above); further parameters may come and go
+	altLoop := func(field, callee string) bool {
+		found := 0
+		ast.Inspect(lr.Body, func(n ast.Node) bool {
+			rs, ok := n.(*ast.RangeStmt)
+			if !ok || exprString(fset, rs.X) != "rule."+field {
+				return true
+			}
+			v, ok := rs.Value.(*ast.Ident)
+			if !ok {
+				return true
+			}
+			ast.Inspect(rs.Body, func(m ast.Node) bool {
+				ce, ok := m.(*ast.CallExpr)
+				if !ok || exprString(fset, ce.Fun) != "l."+callee || len(ce.Args) < 2 {
+					return true
+				}
+				if exprString(fset, ce.Args[len(ce.Args)-1]) == v.Name+".Line" && exprString(fset, ce.Args[len(ce.Args)-2]) == v.Name+".Value" {
+					found++
+				} else {
+					found += 100
+				}
+				return true
+			})
+			return true
+		})
+		return found == 1
+	}
+	_ = lrs
+	add("loadRule: each syntax alternative is loaded with its own line", altLoop("SyntaxPatterns", "loadSyntaxRule"))
+	add("loadRule: each comment alternative is loaded with its own line", altLoop("CommentPatterns", "loadCommentRule"))
 
 	sb.WriteString("Require Import Coq.Strings.String.\n")
 	sb.WriteString("(* facts read off runner.go / ir_loader.go; false = the statement no longer has the expected form *)\n")
